@@ -179,6 +179,31 @@ type FailFile[C any] struct {
 	Note     string  `json:"note,omitempty"`
 }
 
+// Spoiled, if set, is asked after every case whether the environment broke the
+// case's fault model while it ran (returns a reason, or ""). A failing verdict of
+// a spoiled case is not believed: the case counts as inconclusive (class
+// spoiled-by-environment). The scenario toolkit sets it (scen/loadfault.go):
+// connection attempts to reachable servers that the transport aborted because
+// the machine was too busy to finish them within their connect deadline.
+var Spoiled func() string
+
+func runCase[C any](run func(C) Verdict, c C) Verdict {
+	if Spoiled != nil {
+		_ = Spoiled() // forget what happened between cases
+	}
+	v := run(c)
+	if Spoiled != nil {
+		if why := Spoiled(); why != "" {
+			v.Classes = append(v.Classes, "spoiled-by-environment")
+			if !v.OK {
+				return Verdict{OK: true, Inconclusive: true, Classes: v.Classes,
+					Msg: "not evaluated: " + why + " (the case would have been reported as " + v.Key + ")"}
+			}
+		}
+	}
+	return v
+}
+
 // Main runs the property in the mode the environment selects.
 func Main[C any](t *testing.T, sp Spec[C]) {
 	mode := os.Getenv("VERIF_MODE")
@@ -231,7 +256,7 @@ func Main[C any](t *testing.T, sp Spec[C]) {
 		if sp.TrackCurrent && out != "" {
 			_ = os.WriteFile(filepath.Join(out, "current.json"), cb, 0o644)
 		}
-		v := sp.Run(c)
+		v := runCase(sp.Run, c)
 		st.mu.Lock()
 		st.Evaluations++
 		for _, cl := range v.Classes {
@@ -335,10 +360,15 @@ func replay[C any](t *testing.T, sp Spec[C], out string, known map[string]Findin
 			_ = os.WriteFile(filepath.Join(out, "current-file.txt"), []byte(f), 0o644)
 		}
 		var v Verdict
+		incon := 0
 		for i := 0; i < repeat; i++ {
-			v = sp.Run(ff.Case)
+			v = runCase(sp.Run, ff.Case)
 			if !v.OK && !v.Inconclusive {
 				break
+			}
+			if v.Inconclusive {
+				incon++
+				t.Logf("replay %s: run %d inconclusive: %s", f, i, v.Msg)
 			}
 		}
 		r := replayResult{File: f, Verdict: v}
